@@ -2,6 +2,7 @@ import KyupyVerif.Proofs.SemL
 import KyupyVerif.Proofs.Consistent
 import KyupyVerif.Model.SimOps
 import KyupyVerif.Proofs.Solve
+import KyupyVerif.Proofs.GenOpsWO
 /-! # C01 — 2-valued logic simulation computes the netlist's Boolean function
 
 Generated from the working tree: `Gen.sem2n` (what `logic_sim._prop_cpu` computes for an op code),
@@ -88,6 +89,31 @@ theorem sim_is_the_solution {α} (sem : Op → List α → α) (ops : List Op) (
    fun val hs => solution_unique sem ops (wellOrderedB_sound ops hc) env val hs⟩
 
 example : wellOrderedB [⟨34952, 10, [0, 1, 9, 9]⟩, ⟨21845, 11, [10, 9, 9, 9]⟩, ⟨61166, 12, [10, 11, 9, 9]⟩] = true := by decide
+
+/-- (4'') **ALL circuits**: for every netlist whose pin tables and line records refer to each other (`Net.wfB`) and
+    every topological order of its nodes (`orderOKB`: no node twice, every driver of a connected input of a
+    non-source node strictly earlier — what `Circuit.topological_order` yields, C17), the op program `SimOps` generates
+    (model `genOps`, equal to the real `ops` by exact correspondence) computes THE solution of the netlist's gate
+    equations: every op equation holds in the result, inputs / state slots / the constant-0 slot keep their values,
+    and any labelling with these properties agrees with the result on every signal except the scratch slot.
+    Any value domain and op semantics (2-, 4-, 8-valued logic; waveforms with per-line delays). Both certificates are
+    evaluated by the driver on the REAL circuit and the REAL order of every generated case. -/
+theorem all_circuits_solution {α} (tbl : List PrefixRow) (net : Net) (order : List Nat)
+    (hwf : net.wfB = true) (ho : orderOKB net order = true) (sem : Op → List α → α) (env : Nat → α) :
+    let ops := (genOps tbl net order false).map OpRow.toOp
+    SolvesJ (Jt net) sem ops env (execG sem ops env) ∧
+    ∀ val, SolvesJ (Jt net) sem ops env val → ∀ x, Jt net x = false → val x = execG sem ops env x := by
+  intro ops
+  have hw := genOps_WOJ tbl net order false hwf ho
+  exact ⟨execG_solution (Jt net) sem ops hw env, fun val hs => solution_uniqueJ (Jt net) sem ops hw env val hs⟩
+
+/-- non-vacuity: a two-input AND with an inverter behind it (input cells, forks, output cell), in its natural order -/
+def demoNet : Net :=
+  { nodes := #[⟨"input", [], [some 0]⟩, ⟨"__fork__", [some 0], [some 2]⟩, ⟨"input", [], [some 1]⟩, ⟨"__fork__", [some 1], [some 3]⟩,
+               ⟨"AND2", [some 2, some 3], [some 4]⟩, ⟨"INV1", [some 4], [some 5]⟩, ⟨"output", [some 5], []⟩],
+    lines := #[⟨0, 0, 1, 0⟩, ⟨2, 0, 3, 0⟩, ⟨1, 0, 4, 0⟩, ⟨3, 0, 4, 1⟩, ⟨4, 0, 5, 0⟩, ⟨5, 0, 6, 0⟩],
+    io := [0, 2, 6] }
+example : demoNet.wfB = true ∧ orderOKB demoNet [0, 2, 1, 3, 4, 5, 6] = true := by decide +kernel
 
 /-- (5) lane-wise for every lane count: lane `k` of the bit-parallel result is the per-lane function -/
 theorem lanewise2 (w k : Nat) (hk : k < w) (code : Nat) (a b c d : BitVec w) :
